@@ -437,6 +437,15 @@ struct StoreAll {
     }
 };
 
+/** Release the context clone that was kept alive across a consuming call. */
+template<typename T>
+inline void ctx_release(T &&ctx) noexcept {
+    mem_drop(std::move(ctx));
+}
+
+/** Nothing was stored for objects without a context. */
+inline void ctx_release(bool) noexcept {}
+
 $start",
     );
 
